@@ -1,4 +1,6 @@
 import PysphVerif.Lemmas.PairSym
+import PysphVerif.Lemmas.NbrCacheHist
+import PysphVerif.Lemmas.NbrMask
 import Mathlib.Tactic.FieldSimp
 /-!
 # C09 — pair-symmetric momentum equations conserve linear and angular momentum
@@ -1895,5 +1897,158 @@ theorem ED_MomentumEquationPressureGradient_not_pair_symmetric :
   decide +kernel
 
 end concrete
+
+/-! ## The neighbour lists as they reach the equations
+
+The system-level theorems above take a duplicate-free symmetric neighbour
+relation as a hypothesis.  Two layers of `pysph/base` sit between the search's
+criterion (`nbr_criterion_symm`) and the lists `AccelerationEval.compute`
+iterates over; both are exercised by the executed-conservation oracle of the
+harness (every NNPS class × its options × cache on/off × histories with
+particles removed and added between evaluations on the same objects).
+
+* the neighbour cache (`Model/NbrCacheHist.lean`): one `NeighborCache` object
+  serves all evaluations of a run, its flag/offset arrays are resized and
+  re-used when the population changes;
+* the cell masks whose width depends on an option (`Lemmas/NbrMask.lean`). -/
+section NeighbourLayer
+open PysphVerif.NbrCacheHist PysphVerif.NbrMask
+
+/-- `NeighborCache.update()` leaves no current particle flagged as cached —
+for every earlier state of the object (any history of sizes and queries) and
+whatever freshly allocated memory contains. -/
+theorem cache_update_clears_every_current_flag (junk : ℕ → ℕ) (s : St) (np d : ℕ) (hd : d < np) :
+    (update junk s np).cached.get d = 0 :=
+  update_clears junk s np d hd
+
+/-- One round (NNPS update, then any sequence of `get_neighbors` of current
+particles and `find_all_neighbors`) on a cache object in ANY earlier state
+hands out exactly the lists of the search. -/
+theorem cache_round_serves_search (junk : ℕ → ℕ) (s : St) (r : Round)
+    (hr : opsInRange r.np r.ops) :
+    (runRound junk s r).2 = specOps r.find r.ops :=
+  (runOps_spec r.find r.np r.ops _ hr (inv_update junk r.find s r.np)).2
+
+/-- Whole histories: population sizes going up and down in any order, any
+search per round, any queries — the cache never hands out anything but the
+current search's list. -/
+theorem cache_history_serves_search (junk : ℕ → ℕ) (h : List Round) (s : St)
+    (hr : ∀ r ∈ h, opsInRange r.np r.ops) :
+    runHist junk s h = specHist h := by
+  induction h generalizing s with
+  | nil => rfl
+  | cons r rest ih =>
+    simp only [runHist, specHist, List.map_cons]
+    rw [cache_round_serves_search junk s r (hr r (List.mem_cons_self ..))]
+    congr 1
+    exact ih _ (fun r' hr' => hr r' (List.mem_cons_of_mem _ hr'))
+
+/-- every state a round can be in satisfies the invariant of the cache -/
+theorem cache_state_inv (junk : ℕ → ℕ) (s : St) (np : ℕ) (find : ℕ → List ℕ) (ops : List Op)
+    (hr : opsInRange np ops) :
+    Inv find np (runOps find np (update junk s np) ops).1 :=
+  (runOps_spec find np ops _ hr (inv_update junk find s np)).1
+
+/-- Symmetry and duplicate-freeness of the search survive the cache: in any
+state of a round, what particle `d` is handed contains `e` only if what `e` is
+handed (later, from the then-current state) contains `d`. -/
+theorem cache_lists_symmetric (find : ℕ → List ℕ) (np : ℕ) (s : St) (hs : Inv find np s)
+    (hsymm : ∀ d e, d < np → e < np → e ∈ find d → d ∈ find e) (hnd : ∀ d, (find d).Nodup)
+    (d e : ℕ) (hd : d < np) (he : e < np) :
+    ((getNeighbors find s d).2).Nodup ∧
+    (e ∈ (getNeighbors find s d).2 → d ∈ (getNeighbors find (getNeighbors find s d).1 e).2) := by
+  obtain ⟨hi, hv⟩ := getNeighbors_spec find np s d hd hs
+  obtain ⟨_, hv'⟩ := getNeighbors_spec find np _ e he hi
+  rw [hv, hv']
+  exact ⟨hnd d, hsymm d e hd he⟩
+
+variable (o : Ops K) (k : Kern K) {w g : K → K → K} (hk : Radial k w g)
+
+include hk in
+/-- Conservation through the cache: `n` particles, the search's relation
+duplicate-free and symmetric; every particle takes its list from the cache in
+whatever state the cache is at that moment of the round (`st i`, any state
+with the invariant — `cache_state_inv`: after any history).  The WCSPH momentum
+equation evaluated over the lists handed out gives `Σ m a = 0`. -/
+theorem linear_momentum_WC_MomentumEquation_through_cache
+    (self_alpha self_beta self_c0 : K) (self_tensile_correction : Bool) {n : ℕ}
+    (pn : ℕ → P K) (nbrs : Fin n → List (Fin n)) (hnd : ∀ i, (nbrs i).Nodup)
+    (hsymm : ∀ i j, j ∈ nbrs i → i ∈ nbrs j)
+    (find : ℕ → List ℕ) (hfind : ∀ i : Fin n, find i = (nbrs i).map Fin.val)
+    (st : Fin n → St) (hst : ∀ i, Inv find n (st i))
+    (init : Fin n → Out_WC_MomentumEquation K)
+    (hinit : ∀ i, (init i).d_au = 0 ∧ (init i).d_av = 0 ∧ (init i).d_aw = 0) :
+    ∑ i : Fin n, (pn i).m * (((getNeighbors find (st i) i).2).foldl (fun acc j => pair_WC_MomentumEquation o k self_alpha self_beta self_c0 self_tensile_correction acc (pn i) (pn j)) (init i)).d_au = 0 ∧
+    ∑ i : Fin n, (pn i).m * (((getNeighbors find (st i) i).2).foldl (fun acc j => pair_WC_MomentumEquation o k self_alpha self_beta self_c0 self_tensile_correction acc (pn i) (pn j)) (init i)).d_av = 0 ∧
+    ∑ i : Fin n, (pn i).m * (((getNeighbors find (st i) i).2).foldl (fun acc j => pair_WC_MomentumEquation o k self_alpha self_beta self_c0 self_tensile_correction acc (pn i) (pn j)) (init i)).d_aw = 0 := by
+  have hserved : ∀ i : Fin n, (getNeighbors find (st i) i).2 = (nbrs i).map Fin.val := fun i => by
+    rw [(getNeighbors_spec find n (st i) i i.isLt (hst i)).2, hfind i]
+  simp only [hserved, List.foldl_map]
+  exact linear_momentum_WC_MomentumEquation o k hk self_alpha self_beta self_c0
+    self_tensile_correction (fun i : Fin n => pn i) nbrs hnd hsymm init hinit
+
+/-- The statement about histories rests on the FULL clear in `update`: a cache
+that clears only the flags of the previous round's slots (and never shrinks
+the flag array) hands particle 1 an empty list after the history
+2 particles → 1 particle → 2 particles, although the search finds `[0, 1]`. -/
+theorem cache_keeping_flags_goes_stale :
+    ∃ h : List Round, (∀ r ∈ h, opsInRange r.np r.ops) ∧
+      runHistKeepFlags (fun _ => 0) (init (fun _ => 0) 2) h ≠ specHist h := by
+  refine ⟨[⟨2, fun _ => [0, 1], [.get 0, .get 1]⟩, ⟨1, fun _ => [0], [.get 0]⟩,
+           ⟨2, fun _ => [0, 1], [.get 0, .get 1]⟩], ?_, by decide⟩
+  intro r hr
+  simp only [List.mem_cons, List.mem_nil_iff, or_false] at hr
+  rcases hr with rfl | rfl | rfl <;> simp [opsInRange]
+
+/-- the same history on the code as it is: served = searched (an instance of
+`cache_history_serves_search`, evaluated) -/
+example :
+    runHist (fun _ => 7) (init (fun _ => 7) 2)
+      [⟨2, fun _ => [0, 1], [.get 0, .get 1]⟩, ⟨1, fun _ => [0], [.all, .get 0]⟩,
+       ⟨2, fun _ => [0, 1], [.get 1, .get 0, .get 1]⟩]
+      = [[[0, 1], [0, 1]], [[0]], [[0, 1], [0, 1], [0, 1]]] := by
+  decide
+
+/-- A cell-mask search reaches, along every axis, the cell of every particle
+that meets the neighbour criterion (`dx² + dy² + dz² < R²`, `R` the larger of
+the two cut-offs, each at most the reach `r` the mask was sized for) when its
+half-width is `ceil(r / cell_size)`. -/
+theorem cell_mask_covers_criterion [FloorRing K] (c r R : K) (hc : 0 < c) (hR : R ≤ r) (hR0 : 0 ≤ R)
+    (xq yq zq xj yj zj : K)
+    (hcrit : (xq - xj) * (xq - xj) + (yq - yj) * (yq - yj) + (zq - zj) * (zq - zj) < R * R) :
+    |cellId xj c - cellId xq c| ≤ ⌈r / c⌉ ∧ |cellId yj c - cellId yq c| ≤ ⌈r / c⌉ ∧
+    |cellId zj c - cellId zq c| ≤ ⌈r / c⌉ := by
+  have axis : ∀ u : K, u * u < R * R → |u| ≤ r := fun u hu =>
+    le_trans (le_of_lt (abs_lt_of_sq_lt_sq (by simpa [sq] using hu) hR0)) hR
+  refine ⟨cell_mask_covers c r xj xq hc ?_, cell_mask_covers c r yj yq hc ?_,
+          cell_mask_covers c r zj zq hc ?_⟩
+  · rw [abs_sub_comm]; exact axis _ (by nlinarith [mul_self_nonneg (yq - yj), mul_self_nonneg (zq - zj)])
+  · rw [abs_sub_comm]; exact axis _ (by nlinarith [mul_self_nonneg (xq - xj), mul_self_nonneg (zq - zj)])
+  · rw [abs_sub_comm]; exact axis _ (by nlinarith [mul_self_nonneg (xq - xj), mul_self_nonneg (yq - yj)])
+
+/-- `StratifiedHashNNPS`: with the mask half-width of the source,
+`ceil(max(radius_scale·h_q, hmax_level)·H / hmax_level)` on cells of size
+`hmax_level / H`, BOTH partners of a pair that meets the criterion reach each
+other's cell on the grid of the other's level — for every sub-division `H ≥ 1`
+and any two levels.  (Per axis; `cell_mask_covers_criterion` reduces the
+Euclidean criterion to the axes.) -/
+theorem strat_hash_mask_reaches_both_ways [FloorRing K] (xa xb ra rb hla hlb : K) (Hopt : ℕ)
+    (hH : 0 < Hopt) (hla0 : 0 < hla) (hlb0 : 0 < hlb) (ha : ra ≤ hla) (hb : rb ≤ hlb)
+    (hcrit : |xa - xb| < max ra rb) :
+    |cellId xb (hlb / Hopt) - cellId xa (hlb / Hopt)| ≤ stratMaskWidth ra hlb Hopt ∧
+    |cellId xa (hla / Hopt) - cellId xb (hla / Hopt)| ≤ stratMaskWidth rb hla Hopt :=
+  ⟨strat_mask_covers xa xb ra rb hlb Hopt hH hlb0 hb hcrit,
+   strat_mask_covers xb xa rb ra hla Hopt hH hla0 ha (by rw [abs_sub_comm, max_comm]; exact hcrit)⟩
+
+/-- … and the option cannot be dropped from the width: see
+`PysphVerif.NbrMask.strat_mask_without_H_misses` (restated). -/
+theorem strat_hash_mask_needs_H :
+    |(0 : ℚ) - 5 / 2| < max 3 3 ∧
+    ¬ (|cellId (5 / 2 : ℚ) (3 / (3 : ℕ)) - cellId (0 : ℚ) (3 / (3 : ℕ))| ≤ stratMaskWidthNoH (3 : ℚ) 3) ∧
+    |cellId (5 / 2 : ℚ) (3 / (3 : ℕ)) - cellId (0 : ℚ) (3 / (3 : ℕ))| ≤ stratMaskWidth (3 : ℚ) 3 3 :=
+  strat_mask_without_H_misses
+
+end NeighbourLayer
+
 
 end PysphVerif.C09
